@@ -413,6 +413,31 @@ func init() {
 		}
 		return "ok " + t.String()
 	})
+	// C13.expr.conserve <dialect> <text-hex> <n> tok… → ok <value-carrying tokens read> | <… of the printed form> ; err ; outside
+	// (token conservation on the fragment: the real parser and printer against `parse_keeps_lexemes` of the model)
+	core.Register("C13.expr.conserve", func(a []string) string {
+		c16.SetDialect(a[0])
+		e, ok := parseWhere(string(core.UnHex(a[1])))
+		if !ok {
+			return core.Err
+		}
+		if _, ok := fromAST(e); !ok {
+			return "outside"
+		}
+		carries := func(toks []string) string {
+			var out []string
+			for _, t := range toks {
+				if strings.HasPrefix(t, "l:") || strings.HasPrefix(t, "i:") {
+					out = append(out, t)
+				}
+			}
+			if len(out) == 0 {
+				return "-"
+			}
+			return strings.Join(out, ",")
+		}
+		return "ok " + carries(a[3:]) + " | " + carries(tokenize(a[0], sqlparser.String(e), true))
+	})
 	core.Register("C13.expr.format", func(a []string) string {
 		c16.SetDialect(a[0])
 		return "ok " + core.Hex([]byte(sqlparser.String(toAST(mustETree(a[1:])))))
